@@ -1,6 +1,7 @@
 package main
 
 import (
+	"go/token"
 	"fmt"
 	"go/types"
 	"strings"
@@ -238,6 +239,24 @@ func dischargeIndex(ff *FuncFacts, blk *ssa.BasicBlock, base, idx ssa.Value) Dis
 	if ok, why := factsEntailLE(fs, it, ln, 1); ok {
 		return Discharge{true, "dominating fact " + why + " entails index < " + ln.String(), ""}
 	}
+	// the length is known to equal another length (len(a) == len(b) checked on entry): a bound
+	// on the index by either length serves
+	for _, f := range fs {
+		if !f.IsCmp || f.Op != token.EQL {
+			continue
+		}
+		for _, pair := range [][2]*Term{{f.L, f.R}, {f.R, f.L}} {
+			if pair[0].String() != ln.String() {
+				continue
+			}
+			if !(pair[1].Op == "call" && pair[1].Sym == "builtin:len") {
+				continue
+			}
+			if ok, why := factsEntailLE(fs, it, pair[1], 1); ok {
+				return Discharge{true, "dominating facts " + f.String() + " and " + why + " entail index < " + ln.String(), ""}
+			}
+		}
+	}
 	// the standard library's search functions return -1 or a position inside their argument
 	if it.Op == "call" && len(it.Args) >= 1 && it.Args[0].String() == bt.String() {
 		for _, fnName := range []string{"slices.Index", "slices.IndexFunc"} {
@@ -336,6 +355,14 @@ func dischargeMake(ff *FuncFacts, mk *ssa.MakeSlice) Discharge {
 	t := ff.Term(mk.Len)
 	if lenDerived(t) {
 		return Discharge{true, "length derived from len() of existing data and non-negative constants", ""}
+	}
+	// len(X) − i with i a position inside X (i < len(X) is a dominating fact): between 1 and len(X)
+	if t.Op == "binop" && t.Sym == "-" && len(t.Args) == 2 && t.Args[0].Op == "call" && t.Args[0].Sym == "builtin:len" {
+		if nonNegative(t.Args[1], mk.Len.Type()) || isCounter(t.Args[1]) {
+			if ok, why := factsEntailLE(ff.FactsAt(mk.Block()), t.Args[1], t.Args[0], 0); ok {
+				return Discharge{true, "length len(X) − i with " + why + ": between 0 and len(X)", ""}
+			}
+		}
 	}
 	src := t
 	via := ""
